@@ -121,7 +121,8 @@ func vfC10WantParse(eff vfc10.Cfg, cmds [][][]byte) (out []string) {
 			if bypass {
 				continue
 			}
-			if _, rej, _ := vfc10.WantFilterCmdKey(eff, name, argv); rej {
+			na, rej, _ := vfc10.WantFilterCmdKey(eff, name, argv)
+			if rej {
 				continue
 			}
 			if n >= 0 {
@@ -131,7 +132,8 @@ func vfC10WantParse(eff vfc10.Cfg, cmds [][][]byte) (out []string) {
 				}
 				continue
 			}
-			out = append(out, "F@"+strconv.Itoa(cur)+":"+vfc10.ArgList(c))
+			// a negative index is not a database switch: passed on like any command
+			out = append(out, "F@"+strconv.Itoa(cur)+":"+vfc10.ArgList(append([][]byte{[]byte(name)}, na...)))
 			continue
 		}
 		if name != "ping" {
@@ -286,7 +288,7 @@ func TestVerifC10(t *testing.T) {
 		}
 	}
 
-	nCfg := vfutil.Scale(120, 8000)
+	nCfg := vfutil.Scale(400, 4000)
 	for i := 0; i < nCfg; i++ {
 		e.RunGenerated(r, 1, 15, 25)
 		c := vfc10.GenCfg(r, "O")
